@@ -105,6 +105,18 @@ CLAIMED['C14'] = dict(
          'exchanges before the ending.',
     design='5/C14')
 
+CLAIMED['C16'] = dict(
+    text='C-FIND user and provider callables (query/retrieve and worklist variants, and the c_find wrapper) are composed in '
+         'one symbolic execution: the user sends through a real Association, the request PDUs are reassembled by the real '
+         'DIMSEDecoder, the provider answers through a second real Association, and its PDUs are reassembled and replayed '
+         'to the user. Number of matches 0..3, pending code per match, message id, fragment size and the schedule of the '
+         'provider thread (drains queued messages at once / only after the provider callable returned) are symbolic. '
+         'Asserted: exactly the matches with exactly those pending statuses in order, one final non-pending response, '
+         'iteration stops (stray responses stay unread), query data set unchanged at the handler.',
+    note=TRUSTED + 'Two schedules of the provider thread only (eager / fully lagging), not arbitrary interleavings; match data '
+         'sets from a concrete pool; handler yields pending statuses only.',
+    design='5/C16')
+
 NOT_YET = 'check not built yet in this revision (see DESIGN.md section 5 for the plan)'
 
 NOT_APPLICABLE = {}
